@@ -483,7 +483,26 @@ class CallMixin:
         raise Unsupported("range with step")
 
     def bi_next(self, node, st, ctx):
-        """next(it) on a ghost iterator object Iter{seq: list, pos: int}"""
+        """next(it) on a ghost iterator object Iter{seq: list, pos: int};
+        next((x for x in L if c), default): the first element of L satisfying c, else the default"""
+        if len(node.args) == 2 and isinstance(node.args[0], ast.GeneratorExp):
+            g = node.args[0]
+            gen = g.generators[0]
+            vars_, cond, elt, it = self.comp_parts(g, st, ctx)
+            if it.ty.kind != "list" or not (isinstance(g.elt, ast.Name) and isinstance(gen.target, ast.Name) and g.elt.id == gen.target.id):
+                raise Unsupported("next() over this generator form")
+            dflt = self.ev(node.args[1], st, ctx)
+            j = vars_[0]
+            n = st.list_len(it.ty, it.t)
+            e = st.list_elems(it.ty, it.t)
+            p = z3.Int(fresh_name("first"))
+            q = z3.Int(fresh_name("q"))
+            found = z3.Exists([j], cond)
+            st.assume(z3.Implies(found, z3.And(0 <= p, p < n, z3.substitute(cond, (j, p)),
+                                               z3.ForAll([q], z3.Implies(z3.And(0 <= q, q < p), z3.Not(z3.substitute(cond, (j, q))))))))
+            st.ghost["_first_%d" % node.lineno] = mk_int(p)
+            val = self.wrap(e[p], it.ty.args[0])
+            return self.ite(found, val, dflt, st)
         (it,) = self.args_of(node, st, ctx)
         if it.ty != Obj("Iter"):
             raise Unsupported("next() on %r" % it.ty)
@@ -629,6 +648,45 @@ class CallMixin:
         e2 = st.list_elems(x.ty, x.t)
         j = z3.Int(fresh_name("j"))
         st.set_list(base.ty, base.t, n + m, z3.Lambda([j], z3.If(j < n, e[j], e2[j - n])))
+        return mk_none()
+
+    def obj_equal(self, ty, a, b, st):
+        """python == on two elements of a list (records compare by content)"""
+        if ty.kind == "obj":
+            decl = self.reg.classes.get(ty.args[0])
+            if decl is None or not decl.get("record"):
+                return a == b
+            cs = []
+            for f, fty in decl["fields"].items():
+                fa, fb = st.field(ty.args[0], f, fty, a), st.field(ty.args[0], f, fty, b)
+                if fty.kind == "dict":
+                    cs.append(z3.And(st.dict_dom(fty, fa) == st.dict_dom(fty, fb), st.dict_val(fty, fa) == st.dict_val(fty, fb)))
+                elif fty.is_ref:
+                    raise Unsupported("equality of records with list fields")
+                else:
+                    cs.append(fa == fb)
+            return z3.And(*cs)
+        if ty.is_ref:
+            raise Unsupported("list.remove on a list of %r" % ty)
+        return a == b
+
+    def m_list_remove(self, base, node, st, ctx):
+        """list.remove(x): removes the first element equal to x (ValueError if there is none)"""
+        (x,) = self.args_of(node, st, ctx)
+        ety = base.ty.args[0]
+        xv = self.coerce(x, ety, st)
+        n = st.list_len(base.ty, base.t)
+        e = st.list_elems(base.ty, base.t)
+        j, q, p = z3.Int(fresh_name("j")), z3.Int(fresh_name("q")), z3.Int(fresh_name("rm"))
+        eqj = self.obj_equal(ety, e[j], xv.t, st)
+        found = z3.Exists([j], z3.And(0 <= j, j < n, eqj))
+        ctx.exc(z3.Not(found), "ValueError", node)
+        st.assume(z3.Implies(found, z3.And(0 <= p, p < n, z3.substitute(eqj, (j, p)),
+                                           z3.ForAll([q], z3.Implies(z3.And(0 <= q, q < p), z3.Not(z3.substitute(eqj, (j, q))))))))
+        new = z3.Const(fresh_name("removed"), e.sort())
+        st.assume(z3.ForAll([q], z3.Implies(z3.And(0 <= q, q < n - 1), new[q] == z3.If(q < p, e[q], e[q + 1])), patterns=[new[q]]))
+        st.set_list(base.ty, base.t, n - 1, new)
+        st.ghost["_removed_%d" % node.lineno] = mk_int(p)
         return mk_none()
 
     def m_list_copy(self, base, node, st, ctx):
